@@ -8,6 +8,7 @@
     get_objects_stream_and_meta / get_objects_content over all keys at most one pack or loose file is open at any
     time; LazyOpener inputs of add_streamed_objects_to_pack(open_streams=True) are open only one at a time and closed
     afterwards.
+(4) Descriptors after a failed operation: for six operations every single I/O fault is injected; after close() the count must be 0.
 (3) Memory (enumeration with a monitor, level "exploration"): for object sizes 1..16 (48) MiB x every streaming path
     the tracemalloc peak must stay below a fixed budget of a few chunk sizes, independent of the size.
 """
@@ -256,6 +257,15 @@ def _memory_case(arg):
             src = Container(os.path.join(d, 'src'))
             src.init_container()
             key = src.add_streamed_object_to_pack(SynthStream(size), compress=True)
+        many = []
+        if path == 'import-many':
+            # many objects of 256 KiB (total = the nominal size) imported with a memory budget of 1 MiB: the cache must be flushed
+            src = Container(os.path.join(d, 'src'))
+            src.init_container()
+            for i in range(size_mib * 4):
+                st = SynthStream(256 * 1024)
+                st.pos = 0
+                many.append(src.add_objects_to_pack([b'%06d' % i + st.read(256 * 1024 - 6)])[0])
         tracemalloc.start()
         tracemalloc.reset_peak()
         base = tracemalloc.get_traced_memory()[0]
@@ -288,6 +298,8 @@ def _memory_case(arg):
             c.loosen_object(key)
         elif path == 'import-stream':
             c.import_objects([key], src, target_memory_bytes=1 << 19)
+        elif path == 'import-many':
+            c.import_objects(many, src, target_memory_bytes=1 << 20)
         peak = tracemalloc.get_traced_memory()[1] - base
         tracemalloc.stop()
         if src is not None:
@@ -298,9 +310,29 @@ def _memory_case(arg):
         rmtree(d)
 
 
+def _count_faults(sc):
+    from ..crashx import count_faultable
+    return count_faultable(sc)
+
+
+def _fault_census(arg):
+    sc, index, label = arg
+    from ..crashx import run_fault
+    w, res, fired, info = run_fault(sc, index, 'eio')
+    try:
+        for h in w.handles:
+            h.close()
+        for s_ in w.sources.values():
+            s_.close()
+        sq, other = census(w.root)
+        return sq + other
+    finally:
+        w.close()
+
+
 MEM_PATHS = ['add-streamed', 'add-streamed-to-pack', 'add-streamed-to-pack-compress', 'add-streamed-to-pack-noholes', 'pack-NO', 'pack-YES',
              'pack-AUTO', 'repack-KEEP', 'repack-YES', 'repack-NO', 'validate', 'chunked-read-loose', 'chunked-read-packed',
-             'chunked-read-compressed', 'seek-compressed', 'loosen-compressed', 'import-stream']
+             'chunked-read-compressed', 'seek-compressed', 'loosen-compressed', 'import-stream', 'import-many']
 
 
 def run(tier, report):
@@ -336,6 +368,20 @@ def run(tier, report):
             report.add_violation(Violation('C18', 'grids', 'memory-grows', {'memory_case': [p, max(by)]},
                                            f'{p}: tracemalloc peak grows with the object size: {lo / 1048576:.1f} MiB at {min(by)} MiB, '
                                            f'{hi / 1048576:.1f} MiB at {max(by)} MiB', {'engine': 'grids', 'clause': 'memory-grows', 'path': p}))
+    # (4) descriptors after a failed operation: for a few operations every single I/O fault is injected (as in C17); after closing the
+    #     handle no descriptor inside the container may remain
+    from ..crashx import count_faultable, scenarios
+    fscs = [sc for sc in scenarios('quick') if sc.name in ('add-new@mixed', 'pack-NO-perpack1@mixed', 'topack-c1-nh1-tw0@mixed',
+                                                            'repack-KEEP@mixed', 'import-same@mixed', 'loosen-packed@mixed')]
+    labels = pmap(_count_faults, fscs)
+    ftasks = [(sc, i, lab) for sc, labs in zip(fscs, labels) for i, lab in enumerate(labs)]
+    fres = pmap(_fault_census, ftasks)
+    for (sc, i, lab), left in zip(ftasks, fres):
+        if left:
+            report.add_violation(Violation('C18', 'crashx-fault', 'fd-after-close-after-fault', {'fault_case': [sc.name, i, lab]},
+                                           f'{sc.name}: after an I/O error at call #{i} [{lab}] and close(), the process still holds {left}',
+                                           {'engine': 'crashx-fault', 'clause': 'fd-after-close-after-fault', 'call': lab.split(':')[0]}))
+    cov['fault_census_cases'] = len(ftasks)
     cov['memory_peaks_MiB'] = table
     cov['memory_cases'] = len(mcases)
     cov['traces_validated_against_impl'] = cov.get('traces_validated_against_impl', 0) + len(cases) + len(mcases)
@@ -353,6 +399,12 @@ def replay(case):
     if 'openfile_case' in case:
         iolayer.install()
         return _openfile_case(tuple(case['openfile_case']))
+    if 'fault_case' in case:
+        from ..crashx import scenarios
+        name, i, lab = case['fault_case']
+        sc = [x for x in scenarios('quick') if x.name == name][0]
+        left = _fault_census((sc, i, lab))
+        return [('fd-after-close-after-fault', left)] if left else []
     p, s = case['memory_case']
     peak = _memory_case((p, s))
     return [('memory-grows', peak)] if peak > BUDGET else []
